@@ -15,7 +15,7 @@ import (
 func init() {
 	register(&propDef{
 		id:      "C07",
-		explain: "Structural necessary conditions of 'configured size limits bound what is buffered': (E6) limit-flow: starting from the fields Server.MaxRequestBodySize / HostClient.MaxResponseBodySize / RequestConfig.MaxRequestBodySize and the limit parameters of the exported *WithLimit / ReadLimitBody / ContinueReadBody entry points, every module function parameter that receives a limit is found by propagation through static calls; each such function either compares the limit in a branch condition, stores it into the N of an io.LimitedReader, or forwards it to a callee that itself does - a function that receives a limit and drops it is a violation; every function that compares a limit has a return of ErrBodyTooLarge (or of an error wrapping it) control-dependent on such a comparison; (R-default) in the serve loop the value handed to the body readers is, on every path of every iteration, the per-request override, the server limit, or the default - a value set while serving an earlier request is never read for a later one - and the connection-level value replaces a non-positive server limit by the default before the loop; (R-431) the default error handler answers 431 for a too-small read buffer, and the error response path sets Connection: close. (R-fwd) the value a limit-receiving function passes on to a limit-taking callee is the received limit on every path: it is never merged with a non-positive constant ('unlimited') except where the received limit itself was found non-positive. Not decided: the numeric peak of buffered bytes; streamed bodies (unlimited by design).",
+		explain: "Structural necessary conditions of 'configured size limits bound what is buffered': (E6) limit-flow: starting from the fields Server.MaxRequestBodySize / HostClient.MaxResponseBodySize / RequestConfig.MaxRequestBodySize and the limit parameters of the exported *WithLimit / ReadLimitBody / ContinueReadBody entry points, every module function parameter that receives a limit is found by propagation through static calls; each such function either compares the limit in a branch condition, stores it into the N of an io.LimitedReader, or forwards it to a callee that itself does - a function that receives a limit and drops it is a violation; every function that compares a limit has a return of ErrBodyTooLarge (or of an error wrapping it) control-dependent on such a comparison; (R-default) in the serve loop the value handed to the body readers is, on every path of every iteration, the per-request override, the server limit, or the default - a value set while serving an earlier request is never read for a later one - and the connection-level value replaces a non-positive server limit by the default before the loop; (R-431) the default error handler answers 431 for a too-small read buffer, and the error response path sets Connection: close. (R-fwd) the value a limit-receiving function passes on to a limit-taking callee is the received limit on every path: it is never merged with a non-positive constant ('unlimited') except where the received limit itself was found non-positive. (R-ident) BodyUncompressedWithLimit returns a body without Content-Encoding only on paths that compared something with the limit. Not decided: the numeric peak of buffered bytes; streamed bodies (unlimited by design).",
 		run:     runC07,
 	})
 }
@@ -26,6 +26,7 @@ type limParam struct {
 }
 
 func runC07(p *Prog, r *Report) {
+	identityBodyLimited(p, r)
 	// ---- E6: find limit-receiving parameters ----
 	lims := map[limParam]bool{}
 	var work []limParam
@@ -560,4 +561,70 @@ func mentionsGlobal(v ssa.Value, name string, d int) bool {
 		}
 	}
 	return false
+}
+
+// identityBodyLimited (C07.R-ident): BodyUncompressedWithLimit bounds what it returns also when there is nothing to
+// decompress: every return of the raw body (the result of Body()) with a nil error is control-dependent on a
+// comparison that involves the limit parameter.
+func identityBodyLimited(p *Prog, r *Report) {
+	n := 0
+	for _, name := range []string{"(*Request).BodyUncompressedWithLimit", "(*Response).BodyUncompressedWithLimit"} {
+		fn := p.Func(name)
+		if fn == nil {
+			r.Undecided("R-ident", name, "not found")
+			continue
+		}
+		var limit *ssa.Parameter
+		for _, prm := range fn.Params {
+			if prm.Type().String() == "int" {
+				limit = prm
+			}
+		}
+		for _, b := range fn.Blocks {
+			rt, ok := b.Instrs[len(b.Instrs)-1].(*ssa.Return)
+			if !ok {
+				continue
+			}
+			rr := returnResults(rt)
+			if len(rr) != 2 || !isNilConst(rr[1]) {
+				continue
+			}
+			raw := false
+			var walk func(v ssa.Value, d int)
+			walk = func(v ssa.Value, d int) {
+				if d > 4 {
+					return
+				}
+				switch x := v.(type) {
+				case *ssa.Call:
+					if f := x.Call.StaticCallee(); f != nil && f.Name() == "Body" {
+						raw = true
+					}
+				case *ssa.Phi:
+					for _, e := range x.Edges {
+						walk(e, d+1)
+					}
+				}
+			}
+			walk(rr[0], 0)
+			if !raw {
+				continue
+			}
+			n++
+			// every path to this return passes a branch on a comparison that involves the limit
+			limitTest := func(i ssa.Instruction) bool {
+				iff, ok := i.(*ssa.If)
+				if !ok || limit == nil {
+					return false
+				}
+				bo, ok := iff.Cond.(*ssa.BinOp)
+				return ok && (derivesFromValue(bo.X, limit) || derivesFromValue(bo.Y, limit))
+			}
+			hit, _ := reachAvoiding(fn, nil, func(i ssa.Instruction) bool { return i == ssa.Instruction(rt) }, limitTest, nil)
+			dep := hit == nil
+			r.Check("R-ident", funcName(fn)+": the body without Content-Encoding is returned only after a comparison with the limit", dep, p.Pos(rt.Pos()),
+				"the raw Body() is returned with a nil error on a path that never compared anything with maxBodySize: a limit of 10 returns a 1000-byte identity body")
+		}
+	}
+	r.Floor("R-ident", "returns of the raw body from BodyUncompressedWithLimit", n, 2)
 }
